@@ -227,7 +227,7 @@ def run_doc(ctx):
     rng = ctx.rng
     # ------------------------------------------------------------- documents, every Open
     docs = []
-    for _ in range(ctx.scale(70, 900)):
+    for _ in range(ctx.scale(220, 2500)):
         doc = g_fields(rng, rng.choice([2, 3, 4]), rng.randrange(1, 4))
         toks = doc_tokens(doc)
         d, after = render_offsets(toks, rng, rng.choice(td.STYLES))
@@ -306,6 +306,7 @@ def run_doc(ctx):
         dense.append(b"a={" + b" " * pad + b'"' + b"x" * 20 + b'\\"' + b"}" * 9 + b'\\\\" ' + b"}" + b" b={}")
         dense.append(b"a={" + b" " * pad + b"#" + b"}{\"" * 9 + b"\n" + b"}" + b"}}}}}}}} b=1")
         dense.append(b"a={" + b" " * pad + b"}" + b"}" * 8 + b" b")
+        dense.append(b"a={" + b" " * pad + b"# c\r} {\x0b}\x0c}\n" + b" x=\"\r\n}\" } q=1")      # CR / VT / FF do not end a comment
         dense.append(b"a={" + b"}" + b" " * pad + b"{" * 8 + b"}" * 8)
     for off in range(0, 20):
         dense.append(b'a={ "' + b"y" * off + b'\\"' + b"z" * 11 + b'\\\\\\"}" } k={"}"} e=1')
@@ -340,7 +341,7 @@ def run_doc(ctx):
 
     # ------------------------------------------------------------- skip_unquoted_value
     gaps = [b"", b" ", b"\n\t\t\t", b"\n\t\t\t ", b"\n\t\t\t\n\t\t\t", b"\n\t\t", b" # c } {\n", b"#x\n#y \"\n  ", b" ; ", b"\r\n", b" " * 9,
-            b"\n\t\t\t# {\n\n\t\t\t"]
+            b"\n\t\t\t# {\n\n\t\t\t", b"#c\n\t\t\t", b" #c\n\t\t\t", b"  #c\n\t\t\t", b"   #c\n\t\t\t", b"#{\n\t\t\t\n\t\t\t", b" # a\r{\n"]
     follows = [(b"{ 1 2 3 } f=2", "c"), (b"{} f=2", "c"), (b'{ "}" # }\n { 4 } } f=2', "c"), (b"x=1", "t"), (b'"q" y', "t"), (b"}", "t"), (b"", "e")]
     cases, meta = [], []
     uv_inputs = []
@@ -363,7 +364,8 @@ def run_doc(ctx):
         exp_rest = r_impl[rb + i].split(" ")
         n = len(d)
         variants = [("slice", "-"), ("5", sched_str([1] * n)), ("5", sched_str([4] * (n // 4 + 1))), ("8", sched_str([3] * (n // 3 + 1))),
-                    (str(n + 9), sched_str([6, 1, 1, 1, 1, n])), ("6", sched_str(rng.choice(tg.schedules(rng, n, 2))))]
+                    (str(n + 9), sched_str([6, 1, 1, 1, 1, n])), ("6", sched_str(rng.choice(tg.schedules(rng, n, 2)))),
+                    ("8", sched_str([5] + [4] * (n // 4 + 1))), ("9", sched_str([6] + [4] * (n // 4 + 1))), ("16", sched_str([7] + [4] * (n // 4 + 1))), ("16", sched_str([8] + [4] * (n // 4 + 1)))]
         for cap_s, sc in variants:
             cases.append("tr.skipuv\t%s\t%s\t%s\t3" % (cap_s, sc, hexs(d)))
             meta.append((d, exp_pos, exp_rest, cap_s))
